@@ -15,11 +15,11 @@ def _clip(t):
     return t[:2500] if len(t) <= 3000 else t[:2000] + "\n...\n" + t[-800:]
 
 
-def _run_batch(monitor, indexed_cases, env, timeout, workdir, tag):
+def _run_batch(monitor, indexed_cases, env, timeout, workdir, tag, case_timeout=None):
     bfile = os.path.join(workdir, "batch-%s.json" % tag)
     ofile = os.path.join(workdir, "out-%s.jsonl" % tag)
     with open(bfile, "w") as fh:
-        json.dump({"monitor": monitor, "cases": indexed_cases}, fh)
+        json.dump({"monitor": monitor, "cases": indexed_cases, "case_timeout": case_timeout}, fh)
     open(ofile, "w").close()
     status = {"timeout": False, "rc": None, "stderr": ""}
     try:
@@ -27,6 +27,8 @@ def _run_batch(monitor, indexed_cases, env, timeout, workdir, tag):
                            stdout=subprocess.PIPE, stderr=subprocess.PIPE, timeout=timeout)
         status["rc"] = r.returncode
         status["stderr"] = _clip(r.stderr.decode("utf-8", "replace"))
+        if r.returncode != 0 and "Timeout (" in status["stderr"][:200]:
+            status["timeout"] = True        # the worker's per-case watchdog fired
     except subprocess.TimeoutExpired as e:
         status["timeout"] = True
         status["stderr"] = _clip((e.stderr or b"").decode("utf-8", "replace"))
@@ -73,7 +75,7 @@ def run_cases(monitor, cases, variant="plain", batch_size=20, timeout_per_case=6
             tagc[0] += 1
             tag = "%d-%d" % (os.getpid(), tagc[0])
             to = base_timeout + timeout_per_case * len(pending)
-            recs, started, envinfo, done, status = _run_batch(monitor, pending, env, to, workdir, tag)
+            recs, started, envinfo, done, status = _run_batch(monitor, pending, env, to, workdir, tag, case_timeout=timeout_per_case)
             info["children"] += 1
             if envinfo:
                 info["env"] = envinfo
@@ -105,7 +107,7 @@ def run_cases(monitor, cases, variant="plain", batch_size=20, timeout_per_case=6
             others = [(i, c) for (i, c) in rest if i != culprit]
             tagc[0] += 1
             r2, s2, e2, d2, st2 = _run_batch(monitor, cul, env, base_timeout + timeout_per_case * 2, workdir,
-                                             "%d-%d" % (os.getpid(), tagc[0]))
+                                             "%d-%d" % (os.getpid(), tagc[0]), case_timeout=2 * timeout_per_case)
             info["children"] += 1
             if culprit in r2:
                 records[culprit] = r2[culprit]
